@@ -1,7 +1,278 @@
-(* Executable specifications for C15 / C02 (renderers, expected values).  No proofs here. *)
+(* Executable specifications for C15 / C02, written independently of the parser's algorithm:
+   default fill-in, the documented time-zone resolution order, renderers of the supported
+   formats with their expected values.  No proofs here. *)
 From Coq Require Import ZArith List Bool.
 From V Require Import base.Cal gen.ParseTables parse.Lex parse.Prim parse.Ymd parse.Parse parse.Build.
 Import ListNotations.
 Open Scope Z_scope.
 
-Definition spec_dispatch (n : Z) (args : list Z) : list Z := [-1].
+(* ------------------------------------------------------------------ C15: default fill-in *)
+
+(* first ordinal >= o whose weekday is wd, by search (not by the mod-7 formula) *)
+Fixpoint next_weekday_from (n : nat) (o wd : Z) : Z :=
+  match n with
+  | O => o
+  | S n' => if weekday_of_ord o =? wd then o else next_weekday_from n' (o + 1) wd
+  end.
+
+Inductive fill_result := FillOk (d : dt7) | FillInvalid | FillOverflow.
+
+(* fields found in the text (None = absent) + default -> what parse() must return *)
+Definition spec_fill (y mo d h mi s us wd : option Z) (df : dt7) : fill_result :=
+  let Y := dflt y (d_y df) in
+  let M := dflt mo (d_mo df) in
+  let D := match d with Some v => v | None => Z.min (d_d df) (dim Y M) end in
+  let r := mkDt Y M D (dflt h (d_h df)) (dflt mi (d_mi df)) (dflt s (d_s df)) (dflt us (d_us df)) in
+  if negb (valid_dt r) then FillInvalid else
+  match wd, d with
+  | Some w, None =>
+      let o := next_weekday_from 7 (ord_of_ymd Y M D) w in
+      if max_ord <? o then FillOverflow else
+      let '(y', m', d') := ymd_of_ord o in
+      FillOk (mkDt y' m' d' (d_h r) (d_mi r) (d_s r) (d_us r))
+  | _, _ => FillOk r
+  end.
+
+(* ------------------------------------------------------------------ C15: zone resolution order
+   Inputs are the *meaning* of the zone text: an abbreviation (maybe), a signed offset in seconds
+   east of UTC as written (maybe), whether the text had the form NAME+h / NAME-h ("my time + h is
+   NAME": the sign is inverted and a UTC alias is dropped); and the environment: the tzinfos
+   argument, time.tzname, and whether the local zone reports the abbreviation at that wall time. *)
+Inductive zres := ZR (z : zone) (warned : bool) | ZROverflow | ZRTypeError.
+
+Definition is_utc_alias (n : str) : bool := isSome (sassoc (lower n) tbl_utczone).
+Definition is_zulu (n : str) : bool := is1 n 90 || is1 n 122.
+Definition utc_name : str := [85; 84; 67].
+
+Definition spec_zone (ti : tzinfos) (locals : list str) (local_matches : bool)
+                     (name0 : option str) (off0 : option Z) (posix_form : bool) : zres :=
+  (* step 0: meaning of the text *)
+  let off := if posix_form then match off0 with Some v => Some (- v) | None => None end else off0 in
+  let name := match name0 with
+              | Some n => if posix_form && is_utc_alias n then None else Some n
+              | None => None end in
+  let utc_named := match name with Some n => is_utc_alias n | None => false end in
+  let off := if utc_named then Some 0 else off in
+  let name := match name, off with
+              | Some n, _ => if is_zulu n then Some utc_name else Some n
+              | None, Some 0 => Some utc_name
+              | None, _ => None end in
+  (* step 1: tzinfos (a callable always applies, a mapping when it has the abbreviation) *)
+  let tv := match ti with
+            | TINone => None
+            | TIDict d => match name with Some n => dict_get n d | None => None end
+            | TICall tbl df => Some (call_get name tbl df)
+            | TICallOff => Some (match off with Some v => TVInt v | None => TVNone end)
+            end in
+  match tv with
+  | Some TVNone => ZR ZNaive false
+  | Some (TVObj id) => ZR (ZUser id) false
+  | Some (TVStr id) => ZR (ZStr id) false
+  | Some (TVInt secs) => if tzoffset_ok secs then ZR (ZOffset name secs) false else ZROverflow
+  | Some TVBad => ZRTypeError
+  | None =>
+  (* step 2: local zone names *)
+  match name with
+  | Some (c :: n') =>
+      if smem (c :: n') locals then
+        (if negb local_matches && in_utczone_raw (c :: n') then ZR ZUTC false else ZR ZLocal false)
+      else
+        match off with
+        | Some 0 => ZR ZUTC false
+        | Some v => if tzoffset_ok v then ZR (ZOffset name v) false else ZROverflow
+        | None => ZR ZNaive true
+        end
+  | _ =>
+      match off with
+      | Some 0 => ZR ZUTC false
+      | Some v => if tzoffset_ok v then ZR (ZOffset name v) false else ZROverflow
+      | None => ZR ZNaive false
+      end
+  end
+  end.
+
+(* ------------------------------------------------------------------ C02: renderers
+   render tpl dt off : the text of datetime dt (with UTC offset off) in template tpl;
+   expected tpl dt off default : what parse() must return for it (fields the template does not
+   show come from the default; a seconds field shown without fraction means fraction 0).
+   English month / weekday names are part of the formats' definition and are literal here. *)
+
+Fixpoint digits_n (k : nat) (n : Z) : list Z :=
+  match k with
+  | O => []
+  | S k' => digits_n k' (n / 10) ++ [48 + n mod 10]
+  end.
+
+Definition mon3_names : list str :=
+  [[74;97;110]; [70;101;98]; [77;97;114]; [65;112;114]; [77;97;121]; [74;117;110];
+   [74;117;108]; [65;117;103]; [83;101;112]; [79;99;116]; [78;111;118]; [68;101;99]].
+Definition month_names : list str :=
+  [[74;97;110;117;97;114;121]; [70;101;98;114;117;97;114;121]; [77;97;114;99;104]; [65;112;114;105;108];
+   [77;97;121]; [74;117;110;101]; [74;117;108;121]; [65;117;103;117;115;116];
+   [83;101;112;116;101;109;98;101;114]; [79;99;116;111;98;101;114]; [78;111;118;101;109;98;101;114];
+   [68;101;99;101;109;98;101;114]].
+Definition wd3_names : list str :=
+  [[77;111;110]; [84;117;101]; [87;101;100]; [84;104;117]; [70;114;105]; [83;97;116]; [83;117;110]].
+
+Definition mon3 (m : Z) : str := nth (Z.to_nat (m - 1)) mon3_names [].
+Definition month_name (m : Z) : str := nth (Z.to_nat (m - 1)) month_names [].
+Definition wd3 (w : Z) : str := nth (Z.to_nat w) wd3_names [].
+
+Inductive dform :=
+| DNone | DIso | DCompact | DSlashYMD | DUS | DEU | DEUDot | DMonDY | DMonthDY | DDMonY | DDMonthY
+| DDashMon | DYY | DUSYY.
+Inductive joiner := JT | JSpace | JNone.
+Inductive tform :=
+| TNone | THM | THMS | TFrac (k : nat) (comma : bool) | TCompactHM | TCompactHMS
+| T12HM (spaced : bool) | T12HMS (spaced : bool) | T12H (spaced : bool) | TWords.
+Inductive oform := ONone | OZ | OUTC | OGMT | OHHMM | OHH_MM | OHH.
+Inductive template :=
+| TDT (d : dform) (j : joiner) (t : tform) (o : oform)
+| TCtime
+| TRfc (o : oform).
+
+(* offset: sign (true = '+'), hours, minutes *)
+Record offs := mkOff { of_pos : bool; of_h : Z; of_m : Z }.
+Definition off_secs (f : offs) : Z := (if of_pos f then 1 else -1) * (of_h f * 3600 + of_m f * 60).
+
+Definition render_date (f : dform) (d : dt7) : str :=
+  let y4 := digits_n 4 (d_y d) in let m2 := digits_n 2 (d_mo d) in let d2 := digits_n 2 (d_d d) in
+  let yy := digits_n 2 (d_y d mod 100) in
+  match f with
+  | DNone => []
+  | DIso => y4 ++ [45] ++ m2 ++ [45] ++ d2
+  | DCompact => y4 ++ m2 ++ d2
+  | DSlashYMD => y4 ++ [47] ++ m2 ++ [47] ++ d2
+  | DUS => m2 ++ [47] ++ d2 ++ [47] ++ y4
+  | DEU => d2 ++ [47] ++ m2 ++ [47] ++ y4
+  | DEUDot => d2 ++ [46] ++ m2 ++ [46] ++ y4
+  | DMonDY => mon3 (d_mo d) ++ [32] ++ d2 ++ [44; 32] ++ y4
+  | DMonthDY => month_name (d_mo d) ++ [32] ++ d2 ++ [44; 32] ++ y4
+  | DDMonY => d2 ++ [32] ++ mon3 (d_mo d) ++ [32] ++ y4
+  | DDMonthY => d2 ++ [32] ++ month_name (d_mo d) ++ [32] ++ y4
+  | DDashMon => d2 ++ [45] ++ mon3 (d_mo d) ++ [45] ++ y4
+  | DYY => yy ++ [45] ++ m2 ++ [45] ++ d2
+  | DUSYY => m2 ++ [47] ++ d2 ++ [47] ++ yy
+  end.
+
+Definition h12 (h : Z) : Z := if h mod 12 =? 0 then 12 else h mod 12.
+Definition ampm_txt (h : Z) : str := if h <? 12 then [65; 77] else [80; 77].
+Definition sp (b : bool) : str := if b then [32] else [].
+
+(* first k digits of the six-digit microsecond, zero-extended beyond six *)
+Definition frac_digits (k : nat) (us : Z) : str := firstn k (digits_n 6 us ++ repeat 48 k).
+
+Definition render_time (f : tform) (d : dt7) : str :=
+  let h2 := digits_n 2 (d_h d) in let mi2 := digits_n 2 (d_mi d) in let s2 := digits_n 2 (d_s d) in
+  let hh := digits_n 2 (h12 (d_h d)) in
+  match f with
+  | TNone => []
+  | THM => h2 ++ [58] ++ mi2
+  | THMS => h2 ++ [58] ++ mi2 ++ [58] ++ s2
+  | TFrac k comma => h2 ++ [58] ++ mi2 ++ [58] ++ s2 ++ [if comma then 44 else 46] ++ frac_digits k (d_us d)
+  | TCompactHM => h2 ++ mi2
+  | TCompactHMS => h2 ++ mi2 ++ s2
+  | T12HM b => hh ++ [58] ++ mi2 ++ sp b ++ ampm_txt (d_h d)
+  | T12HMS b => hh ++ [58] ++ mi2 ++ [58] ++ s2 ++ sp b ++ ampm_txt (d_h d)
+  | T12H b => hh ++ sp b ++ ampm_txt (d_h d)
+  | TWords => h2 ++ [104] ++ mi2 ++ [109] ++ s2 ++ [115]
+  end.
+
+Definition render_off (f : oform) (o : offs) : str :=
+  let sg := if of_pos o then 43 else 45 in
+  match f with
+  | ONone => []
+  | OZ => [90]
+  | OUTC => [32; 85; 84; 67]
+  | OGMT => [32; 71; 77; 84]
+  | OHHMM => [sg] ++ digits_n 2 (of_h o) ++ digits_n 2 (of_m o)
+  | OHH_MM => [sg] ++ digits_n 2 (of_h o) ++ [58] ++ digits_n 2 (of_m o)
+  | OHH => [sg] ++ digits_n 2 (of_h o)
+  end.
+
+Definition join_txt (j : joiner) : str := match j with JT => [84] | JSpace => [32] | JNone => [] end.
+
+Definition space_pad2 (n : Z) : str := if n <? 10 then [32; 48 + n] else digits_n 2 n.
+
+Definition render (t : template) (d : dt7) (o : offs) : str :=
+  match t with
+  | TDT df j tf ofm => render_date df d ++ join_txt j ++ render_time tf d ++ render_off ofm o
+  | TCtime =>
+      wd3 (weekday (d_y d) (d_mo d) (d_d d)) ++ [32] ++ mon3 (d_mo d) ++ [32] ++ space_pad2 (d_d d) ++ [32]
+      ++ render_time THMS d ++ [32] ++ digits_n 4 (d_y d)
+  | TRfc ofm =>
+      wd3 (weekday (d_y d) (d_mo d) (d_d d)) ++ [44; 32] ++ digits_n 2 (d_d d) ++ [32] ++ mon3 (d_mo d) ++ [32]
+      ++ digits_n 4 (d_y d) ++ [32] ++ render_time THMS d ++ (match ofm with OGMT | OUTC => [] | _ => [32] end)
+      ++ render_off ofm o
+  end.
+
+(* which flags the template is claimed under: (dayfirst, yearfirst) *)
+Definition flags_of (t : template) : bool * bool :=
+  match t with
+  | TDT DEU _ _ _ | TDT DEUDot _ _ _ => (true, false)
+  | TDT DYY _ _ _ => (false, true)
+  | _ => (false, false)
+  end.
+
+(* well-formed combinations *)
+Definition wf_template (t : template) : bool :=
+  match t with
+  | TDT df j tf ofm =>
+      (match df, tf with DNone, TNone => false | _, _ => true end)
+      && (match j, df, tf with
+          | JNone, DCompact, (TCompactHM | TCompactHMS) => true
+          | JNone, DNone, _ => true
+          | JNone, _, TNone => true
+          | JNone, _, _ => false
+          | _, DNone, _ => false
+          | _, _, TNone => false
+          | JT, _, (T12HM _ | T12HMS _ | T12H _ | TWords) => false
+          | _, _, _ => true
+          end)
+      && (match tf, df with (TCompactHM | TCompactHMS), DCompact => true
+                          | (TCompactHM | TCompactHMS), _ => false | _, _ => true end)
+      && (match ofm, tf with ONone, _ => true | _, TNone => false
+                           | OZ, (T12HM _ | T12HMS _ | T12H _ | TWords) => false | _, _ => true end)
+      && (match tf with TFrac k _ => (1 <=? Z.of_nat k) && (Z.of_nat k <=? 9) | _ => true end)
+  | TCtime => true
+  | TRfc ofm => match ofm with OHHMM | OGMT | OUTC => true | _ => false end
+  end.
+
+Definition wf_off (o : offs) : bool := (0 <=? of_h o) && (of_h o <=? 23) && (0 <=? of_m o) && (of_m o <=? 59).
+
+(* truncation of the microsecond to k rendered digits *)
+Definition trunc_us (k : nat) (us : Z) : Z :=
+  if (6 <=? k)%nat then us else let p := 10 ^ Z.of_nat (6 - k) in us / p * p.
+
+Definition has_date (t : template) : bool := match t with TDT DNone _ _ _ => false | _ => true end.
+
+(* two-digit-year templates show only y mod 100: claimed when the year lies within -50..+49 of
+   the current year *)
+Definition two_digit (t : template) : bool :=
+  match t with TDT DYY _ _ _ | TDT DUSYY _ _ _ => true | _ => false end.
+Definition guard_year (t : template) (cur : Z) (d : dt7) : bool :=
+  if two_digit t then (cur - 50 <=? d_y d) && (d_y d <? cur + 50) else true.
+
+Definition expected_dt (t : template) (d df : dt7) : dt7 :=
+  let '(Y, M, D) := if has_date t then (d_y d, d_mo d, d_d d) else (d_y df, d_mo df, d_d df) in
+  let tf := match t with TDT _ _ tf _ => tf | _ => THMS end in
+  let glued := match t with TDT _ JNone _ _ => true | _ => false end in
+  match tf with
+  | TNone => mkDt Y M D (d_h df) (d_mi df) (d_s df) (d_us df)
+  | THM | TCompactHM | T12HM _ => mkDt Y M D (d_h d) (d_mi d) (d_s df) (d_us df)
+  | THMS | T12HMS _ | TWords => mkDt Y M D (d_h d) (d_mi d) (d_s d) 0
+  | TFrac k _ => mkDt Y M D (d_h d) (d_mi d) (d_s d) (trunc_us k (d_us d))
+  (* HHMMSS as a token of its own is a seconds field (fraction 0); inside the 14-digit form only
+     the integer second is read and the microsecond stays with the default *)
+  | TCompactHMS => mkDt Y M D (d_h d) (d_mi d) (d_s d) (if glued then d_us df else 0)
+  | T12H _ => mkDt Y M D (d_h d) (d_mi df) (d_s df) (d_us df)
+  end.
+
+Definition expected_off (t : template) (o : offs) : option Z :=
+  let ofm := match t with TDT _ _ _ f => f | TCtime => ONone | TRfc f => f end in
+  match ofm with
+  | ONone => None
+  | OZ | OUTC | OGMT => Some 0
+  | OHHMM | OHH_MM => Some (off_secs o)
+  | OHH => Some ((if of_pos o then 1 else -1) * (of_h o * 3600))
+  end.
